@@ -14,6 +14,7 @@ import (
 	"encoding/binary"
 	"encoding/hex"
 	"encoding/json"
+	"errors"
 	"flag"
 	"fmt"
 	"math/rand"
@@ -28,6 +29,7 @@ import (
 	"time"
 
 	"golang.zx2c4.com/wireguard/device"
+	"golang.zx2c4.com/wireguard/tun"
 
 	"wgv/cosim"
 	"wgv/ref"
@@ -39,6 +41,7 @@ type Step struct {
 	Counts [5]uint32 `json:"counts"`
 	SElems int       `json:"staged_elems"`
 	SConts int       `json:"staged_conts"`
+	Owner  int       `json:"ownership_defects"` // VerifStagedOwnership: cleared + shared
 }
 
 type Case struct {
@@ -88,6 +91,7 @@ type runner struct {
 	skipped  int
 	stuck    string
 	closed   bool
+	poisoned bool
 	cookie   []byte  // cookie learnt from the device for floodSrc
 	cookieOf ref.Key // device identity the cookie was issued under
 }
@@ -123,6 +127,13 @@ func (r *runner) record(ev string) {
 		for _, pk := range r.w.Dev.VerifPeerKeys() {
 			st.SElems += r.w.Dev.VerifStagedPackets(pk)
 			st.SConts += r.w.Dev.VerifPeer(pk).StagedLen
+		}
+		_, cleared, shared := r.w.Dev.VerifStagedOwnership()
+		st.Owner = cleared + shared
+		if st.Owner > 0 {
+			// a queued element that is not owned by its queue: going on could crash the device (nil buffer in the
+			// encryption worker); the rest of the plan is skipped
+			r.poisoned = true
 		}
 	}
 	r.steps = append(r.steps, st)
@@ -428,7 +439,7 @@ func (r *runner) buildDgram(spec string) (data []byte, from netip.AddrPort, g st
 
 // do executes one plan action; false = the runner is stuck.
 func (r *runner) do(a string) bool {
-	if r.closed && !strings.HasPrefix(a, "gc") {
+	if (r.closed || r.poisoned) && !strings.HasPrefix(a, "gc") {
 		r.skipped++
 		return true
 	}
@@ -529,6 +540,37 @@ func (r *runner) do(a string) bool {
 			return true
 		}
 		r.record(fmt.Sprintf("EExpire %d", p.id))
+	case "fatalread": // the TUN read fails for good: the device closes itself
+		r.w.Tun.FailRead(errors.New("injected fatal TUN read error"))
+		select {
+		case <-r.w.Dev.Wait():
+		case <-time.After(10 * time.Second):
+			r.stuck = "the device did not close after a fatal TUN read"
+			return false
+		}
+		r.closed = true
+		time.Sleep(2 * time.Millisecond)
+		r.record("EFatalRead")
+	case "tunerr": // like tun, but every read that returns these packets also returns tun.ErrTooManySegments
+		var pkts [][]byte
+		var g []string
+		for _, k := range strings.Split(f[1], ",") {
+			p := tunPacket(k)
+			if p == nil {
+				continue
+			}
+			pkts = append(pkts, p)
+			g = append(g, tunGallina(k))
+		}
+		if len(pkts) == 0 {
+			r.skipped++
+			return true
+		}
+		r.w.Tun.ReadErrFn = func(n int) error { return tun.ErrTooManySegments }
+		out := r.w.TunIn(pkts...)
+		r.w.Tun.ReadErrFn = nil
+		r.harvest(out)
+		r.record("ETunErr [" + strings.Join(g, ";") + "]")
 	case "tun": // tun k1,k2,...
 		var pkts [][]byte
 		var g []string
@@ -727,6 +769,7 @@ func runPlan(cfg [3]int, plan []string, gen string) Case {
 		}
 	}
 	if !r.closed && r.stuck == "" {
+		r.poisoned = false
 		r.do("close")
 		r.do("gc")
 	}
@@ -1042,6 +1085,10 @@ func directedPlans() (plans [][]string, names []string) {
 	add("identity-change", "tun r3", "setkey", "tun r1", "tun r2,r2", "net t 1 -1 ok", "net h init 1", "net t 1 -1 ka", "tun r1", "net h resp 2", "tun r2")
 	add("rate-limited-under-load", "ratelimit 12", "tun r3", "ratelimit 8", "net h init 1", "ratelimit 3", "setkey", "ratelimit 9", "down", "up", "ratelimit 7")
 	add("handshake-queue-overflow", "tun r3", "net t 1 -1 ok", "hsflood 64")
+	add("tun-read-error-with-packets", "tunerr r1", "tunerr r3,r3,r1,n,r2", "tunerr r3", "tun r3", "tunerr v,s,e", "tunerr r2,r2", "down", "tunerr r1,r3", "up", "tunerr r3,r3")
+	add("tun-read-error-then-close", "tunerr r3,r1", "tunerr r3", "close", "gc")
+	add("tun-read-error-then-fatal-read", "tunerr r3,r3,r2", "tun r3", "tunerr r1", "fatalread", "gc")
+	add("fatal-read-with-staged", "tun r3,r3", "fatalread", "gc")
 	add("close-with-staged", "tun r3,r3,r3", "tun r1", "close", "gc", "tun r1")
 	add("close-down", "tun r3", "down", "close", "gc")
 	return
@@ -1060,7 +1107,11 @@ func randomPlan(r *rand.Rand, n int) []string {
 			for i := 0; i < 1+r.Intn(6); i++ {
 				ks = append(ks, tk[r.Intn(len(tk))])
 			}
-			p = append(p, "tun "+strings.Join(ks, ","))
+			if r.Intn(6) == 0 {
+				p = append(p, "tunerr "+strings.Join(ks, ","))
+			} else {
+				p = append(p, "tun "+strings.Join(ks, ","))
+			}
 		case x < 58:
 			var ds []string
 			for i := 0; i < 1+r.Intn(6); i++ {
@@ -1119,7 +1170,7 @@ func randomPlan(r *rand.Rand, n int) []string {
 func gallina(c Case) string {
 	var st []string
 	for _, s := range c.Steps {
-		st = append(st, fmt.Sprintf("(%s, mkobs [%d;%d;%d;%d;%d] %d %d)", s.Ev, s.Counts[0], s.Counts[1], s.Counts[2], s.Counts[3], s.Counts[4], s.SElems, s.SConts))
+		st = append(st, fmt.Sprintf("(%s, mkobs [%d;%d;%d;%d;%d] %d %d %d)", s.Ev, s.Counts[0], s.Counts[1], s.Counts[2], s.Counts[3], s.Counts[4], s.SElems, s.SConts, s.Owner))
 	}
 	return fmt.Sprintf("mkcase %d %d %d [\n  %s]", c.Cfg[0], c.Cfg[1], c.Cfg[2], strings.Join(st, ";\n  "))
 }
